@@ -47,7 +47,9 @@ class TArr:
         d = dict(base=self.base, idx=self.idx, scale=self.scale, shape=self.shape, buf=self.buf,
                  writable=self.writable, dtype=self.dtype)
         d.update(kw)
-        return TArr(**d)
+        t = TArr(**d)
+        t.parent = self if t.buf == self.buf else None  # a view keeps the array it was taken from (numpy's .base chain)
+        return t
 
     # numpy-like behaviour --------------------------------------------------------------
     def sym_len(self, interp):
@@ -84,6 +86,16 @@ class TArr:
                 return TArr((name, self.nf(), _tok(a), _tok(tuple(sorted(k.items())))), shape=shp,
                             buf=self.buf if name in ("reshape", "ravel", "squeeze", "transpose") else None, dtype=self.dtype)
             return derived
+        if name == "base":
+            # numpy: the array that OWNS the memory of a view (chains are collapsed), None for an array that owns its memory.  Whether an
+            # array handed in from outside owns its memory is not known: both worlds are explored (a loaded trajectory's xyz is often a view)
+            root = self
+            while getattr(root, "parent", None) is not None:
+                root = root.parent
+            owns = interp.truth(core.SBool(z3.Bool(f"array-owns-its-memory:{root.buf}")))
+            if not owns:
+                return ("<the foreign array that owns the memory of>", root.buf)
+            return None if root is self else root
         if name == "ctypes":
             from .pyinterp import Namespace
             return Namespace("ctypes", data=self.buf)
